@@ -767,7 +767,7 @@ func (rn *run) serveBackend(kind string, w http.ResponseWriter, req *http.Reques
 		d.Frames, d.Rest = rn.observeFrames(form, codec, d.Enc, desc, raw, 0, rn.scn.Cl.Frames)
 		if !formEnveloped(form) && len(raw) == 0 && desc != nil && form != "rest" {
 			// an empty un-enveloped body is the empty message
-			fo := frameObs{Flags: -1, Decl: 0, Actual: 0, Form: "raw"}
+			fo := frameObs{Flags: -1, Decl: 0, Actual: 0, DeclZ: d.Enc != "", Form: "raw"}
 			fo.ID = rn.identifyPayload(codec, "", false, desc, nil, firstM(rn.scn.Cl.Frames))
 			d.Frames = append(d.Frames, fo)
 		}
